@@ -14,6 +14,7 @@ import Oracle.Http
 import Oracle.Logger
 import Oracle.Jose
 import Oracle.Errors
+import Oracle.Ws
 
 namespace Oracle
 
@@ -30,7 +31,8 @@ def handlers : List (String × (String → List String → Option String)) := [
   ("http.", Oracle.Http.handle),
   ("logger.", Oracle.Logger.handle),
   ("jose.", Oracle.Jose.handle),
-  ("err.", Oracle.Errors.handle), ("c08.", Oracle.Errors.handle)
+  ("err.", Oracle.Errors.handle), ("c08.", Oracle.Errors.handle),
+  ("ws", Oracle.Ws.handle)
 ]
 
 def dispatch (op : String) (args : List String) : Option String :=
